@@ -1,5 +1,6 @@
 """C14 - nucleation quantities obey classical nucleation theory for every site type.
 
+R14.9 the validator of the energy ratio rejects every ratio on which the factor evaluator leaves its sentinel (one-sided comparison agreement)
 R14.8 a moment of phase j's distribution is taken on the population balance of phase j (index agreement of self.PBM[i].*FromN(x[j]))
 R14.7 boundary-site barrier at a clamped radius agrees with the bulk branch (sibling agreement, sympy)
 R14.1 T-FRESH on NucleationBarrierParameters (lazy caches discovered from the code follow gamma, gbEnergy, site type)
@@ -262,8 +263,73 @@ def r143(repo, ctx):
     ctx.floor('R14.3', n, 5)
 
 
+_INV = {'Lt': 'GtE', 'LtE': 'Gt', 'Gt': 'LtE', 'GtE': 'Lt'}
+_SWAP = {'Lt': 'Gt', 'Gt': 'Lt', 'LtE': 'GtE', 'GtE': 'LtE'}
+
+
+def _ratio_comparisons(f, limit_attr):
+    """[(op name with the energy ratio on the left and the limit on the right, Compare node)] for the comparisons of f against
+    `<anything>.maxRatio`"""
+    out = []
+    for n in ast.walk(f):
+        if isinstance(n, ast.Compare) and len(n.ops) == 1 and type(n.ops[0]).__name__ in _INV:
+            l, r = n.left, n.comparators[0]
+            op = type(n.ops[0]).__name__
+            lim_r = isinstance(r, ast.Attribute) and r.attr == limit_attr
+            lim_l = isinstance(l, ast.Attribute) and l.attr == limit_attr
+            if lim_r and not lim_l:
+                out.append((op, n))
+            elif lim_l and not lim_r:
+                out.append((_SWAP[op], n))
+    return out
+
+
+def r149(repo, ctx):
+    """R14.9 (contradiction rule): the evaluator of the geometric factors computes them on the mask `ratio <op> maxRatio` and leaves the
+    sentinel -1 elsewhere; the validator of the barrier parameters raises on `ratio <op'> maxRatio`.  Every ratio that the evaluator
+    leaves at the sentinel must be rejected by the validator, otherwise the sentinel (a negative factor) reaches Rcrit / Gcrit."""
+    ev = repo.func(NUC, 'NucleationDescriptionBase._createArrays')
+    va = repo.func(NUC, 'NucleationBarrierParameters._validateGBk')
+    evc = _ratio_comparisons(ev, 'maxRatio')
+    # the condition under which the validator raises: `if C: raise`  or the guard-clause form  `if C': return` ... `raise`
+    body = U.body_without_docstring(va)
+    raising, vac = [], []
+    for i, st in enumerate(body):
+        if not isinstance(st, ast.If) or st.orelse:
+            continue
+        test, positive = st.test, True
+        while isinstance(test, ast.UnaryOp) and isinstance(test.op, ast.Not):
+            test, positive = test.operand, not positive
+        if any(isinstance(x, ast.Raise) for b in st.body for x in ast.walk(b)):
+            pass
+        elif len(st.body) == 1 and isinstance(st.body[0], ast.Return) and st.body[0].value is None and any(isinstance(x, ast.Raise) for x in body[i + 1:]):
+            positive = not positive
+        else:
+            continue
+        raising.append(st)
+        if isinstance(test, ast.Compare):
+            vac += [(op if positive else _INV[op], n) for op, n in _ratio_comparisons(test, 'maxRatio')]
+    if len(evc) != 1 or len(vac) != 1 or len(raising) != 1:
+        ctx.undecided('R14.9', NUC, 'NucleationBarrierParameters._validateGBk', va,
+                      f'admissible-ratio tests not in the form <ratio> <cmp> <..>.maxRatio (evaluator: {len(evc)}, validator: {len(vac)} in {len(raising)} raising branch(es))')
+        return
+    valid_op, rej_op = evc[0][0], vac[0][0]
+    if valid_op not in ('Lt', 'LtE') or rej_op not in ('Gt', 'GtE'):
+        ctx.undecided('R14.9', NUC, 'NucleationBarrierParameters._validateGBk', va, f'unexpected orientation of the admissible-ratio tests ({valid_op}, {rej_op})')
+        return
+    # complement of the evaluated set must be inside the rejected set
+    ok = not (valid_op == 'Lt' and rej_op == 'Gt')
+    ctx.check(ok, 'R14.9', NUC, 'NucleationBarrierParameters._validateGBk', vac[0][1],
+              f'every energy ratio on which the geometric factors are not evaluated (not ratio {valid_op} maxRatio) is rejected by the validator (ratio {rej_op} maxRatio)',
+              f'the geometric factors are evaluated only for ratio {valid_op} maxRatio, but the validator rejects only ratio {rej_op} maxRatio: at ratio == maxRatio (e.g. gamma = gbEnergy/2 on '
+              'grain boundaries) the unevaluated sentinel -1 is used as area / volume / removal factor, so the factors are negative and the barrier and rate are nan',
+              construct='_validateGBk: ratio == maxRatio admitted')
+    ctx.floor('R14.9', 1, 1)
+
+
 def check(repo, ctx, index, purity):
     ctx.explanation = EXPLANATION
+    r149(repo, ctx)
     from .kwn import pbm_index_agreement
     pbm_index_agreement(repo, ctx, 'R14.8')
     ctx.assumptions += ['sympy simplification of the inverse-trigonometric identities', 'shape-factor f is treated as a constant in the Rcrit formula']
